@@ -228,13 +228,12 @@ def run(ctx):
         sc = nsc[0]
         ca, pa = scan.check_scan(ctx, "null_move", nb, sc, loc(nb), require_zero_arm=False)
         ctx.check(sc.owner == NSTM and sc.board == SELF, "null:owner", "null_move's scan does not examine the king of the side that moves next", loc(nb))
-        pre = {k: v for k, v in sc.pre.items() if k.endswith("." + pin_f)}
-        ctx.check(list(pre.values()) == [("bbconst", 0)], "null:pinned-reset", "pinned is not reset before null_move's scan", loc(nb))
+        ctx.check(scan.acc_initial(sc, pa) == ("bbconst", 0), "null:pinned-reset", "pinned is not reset before null_move's scan", loc(nb))
         for p in nps:
             if p.end == "return" and p.ret[0] == "agg" and p.ret[2] == "Some":
                 bd = dict(p.ret[4])["0"]
                 pv = dict(bd[4]).get(pin_f) if bd[0] == "agg" else None
-                ctx.check(pv is not None and pv[0] == "hv", "null:result-pinned-from-scan",
+                ctx.check(scan.is_acc_result(sc, pa, pv), "null:result-pinned-from-scan",
                           "null_move returns a board whose pinned set is not the result of the reset-and-scan (stale pins survive)", loc(nb))
         ctx.note("null_move omits the no-blocker arm: it is only reachable with no checkers and passing cannot put the passer's opponent in check")
 
